@@ -312,7 +312,7 @@ def run(ctx):
     from vlib import env
     sdir = env.scratch()
     rec = ctx.rec
-    for i in range(ctx.pick(240, 5000)):
+    for i in range(ctx.pick(240, 10000)):
         if not ctx.mine(i):
             continue
         rng = ctx.rng("set", i)
